@@ -348,10 +348,10 @@ func (c *cluster) createSession(rng *mrand.Rand) *session {
 }
 
 type postStats struct {
-	tries    int
-	got404   int
-	last404  string
-	acked    bool
+	tries   int
+	got404  int
+	last404 string
+	acked   bool
 }
 
 // post retries the same client message id on the next node after any error (the bridge's protocol).
@@ -795,11 +795,17 @@ func (c *cluster) authProbe() {
 		{"GET", "/debug/pprof/"}, {"GET", "/debug/pprof/cmdline"}, {"GET", "/debug/pprof/goroutine?debug=1"}, {"GET", "/debug/pprof/heap"},
 		{"GET", "/debug/pprof/symbol"}, {"POST", "/debug/pprof/symbol"}, {"GET", "/debug/pprof/trace?seconds=1"}, {"GET", "/debug/vars"}, {"GET", "/debug/requests"}, {"GET", "/debug/events"},
 		{"GET", "/nonexistent"}, {"PUT", "/config"}, {"DELETE", "/config"},
+		// next to the public prefix /robustirc/v1/, but not part of it
+		{"GET", "/robustirc/status"}, {"GET", "/robustirc/v2/0x1/messages"}, {"POST", "/robustirc/v2/session"}, {"GET", "/robustirc/"},
 	}
 	creds := []struct{ name, user, pw string }{{"none", "", ""}, {"wrong-password", "robustirc", "not-the-password"}, {"empty-password", "robustirc", ""}}
 	for _, n := range c.nodes {
 		burst := 0
+		dead := false
 		for pi, p := range probes {
+			if dead {
+				break
+			}
 			// one credential variant per probe (rotating); the node delays every wrong attempt
 			// exponentially while attempts keep coming within a second, so probe in bursts
 			for _, cr := range creds[(pi+n.idx)%len(creds) : (pi+n.idx)%len(creds)+1] {
@@ -815,6 +821,23 @@ func (c *cluster) authProbe() {
 				resp, err := c.hc.Do(req)
 				if err != nil {
 					rep.Obs("auth.request-errors", 1)
+					// no answer at all: is the node still there?
+					alive := false
+					for try := 0; try < 5 && !alive; try++ {
+						time.Sleep(300 * time.Millisecond)
+						lr, _ := http.NewRequest("GET", "https://"+n.addr()+"/leader", nil)
+						lr.SetBasicAuth("robustirc", password)
+						if r2, err2 := c.hc.Do(lr); err2 == nil {
+							r2.Body.Close()
+							alive = true
+						}
+					}
+					if !alive {
+						rep.violation("C11", "binary:unauthenticated-request-takes-the-node-down:"+p.method+" "+strings.SplitN(p.path, "?", 2)[0],
+							fmt.Sprintf("%s %s on node %d with credentials %q got no answer (%v) and the node does not answer any more: %s", p.method, p.path, n.idx, cr.name, err, tailFile(filepath.Join(n.dir, "stderr.txt"))),
+							map[string]interface{}{"node": n.idx, "credentials": cr.name})
+						dead = true
+					}
 					continue
 				}
 				body, _ := io.ReadAll(io.LimitReader(resp.Body, 4096))
@@ -827,6 +850,9 @@ func (c *cluster) authProbe() {
 				rep.Case(fmt.Sprintf("auth|%s %s|%s|%d", p.method, strings.SplitN(p.path, "?", 2)[0], cr.name, resp.StatusCode), 1)
 				rep.Obs("auth.probes", 1)
 			}
+		}
+		if dead {
+			continue
 		}
 		// positive control: the right password opens the status page
 		req, _ := http.NewRequest("GET", "https://"+n.addr()+"/leader", nil)
